@@ -302,6 +302,7 @@ def run(ctx):
                     rep.violation("D3-DISPATCH", where(f), "get_nth(const)", "opcode set selected by a constant index on the compile/run path", line=c.line)
 
     d7_no_cached_interior_pointer(db, rep)
+    d8_every_insn_dispatched(db, rep)
 
     # ---- D4 ------------------------------------------------------------------
     fn = db.func("orc_opcode_find_by_name", "orcopcode")
@@ -446,3 +447,102 @@ def _only_automatic_instances(db, rec):
                 ok = False
     _AUTO[rec] = ok and seen_local
     return _AUTO[rec]
+
+
+def d8_every_insn_dispatched(db, rep):
+    """D8: a back end's instruction loop hands every instruction to the rule that orc_target_get_rule chose for it - which may
+    be an application's.  Whether an iteration ends without calling rule->emit (and without reporting an error) may only be
+    decided by the compiler's own per-instruction marks (insn->flags: invariant / already emitted ...), never by the opcode's
+    identity, its static flags or the register allocation: such a shortcut bakes the built-in meaning of an opcode into the
+    back end and silently bypasses a registered rule.  Decision blocks are found on the CFG: a branch inside the loop body one
+    successor of which can reach the next iteration avoiding emit/error while another cannot."""
+    from exprval import variables
+    n = 0
+    for f in db.all_functions():
+        if not f.relfile.startswith("orc/orcprogram-") and f.relfile != "orc/orccompiler.c":
+            continue
+        emits = [c for c in f.calls() if c.name is None and unparse(c.c[0]).replace(" ", "").endswith("rule->emit")]
+        if not emits:
+            continue
+        for lp in [x for x in f.walk() if x.k == "ForStmt"]:
+            inside = [c for c in emits if any(a is lp for a in c.ancestors())]
+            if not inside or any(a.k == "ForStmt" and a is not lp and any(b is lp for b in a.ancestors()) for c in inside for a in c.ancestors()):
+                continue
+            inc = lp.c[2]
+            if inc is None:
+                continue
+            incpos = f.pos(strip_casts(inc)) or next((f.pos(x) for x in inc.walk() if f.pos(x)), None)
+            if incpos is None:
+                raise AnalysisBroken("%s: increment of the instruction loop not found in the CFG" % f.name)
+            body_ids = {x.id for x in lp.c[3].walk()} if lp.c[3] is not None else set()
+
+            def settles(blk):
+                return any((e.k == "CallExpr" and (e.id in {c.id for c in inside} or e.name == "orc_compiler_error")) or
+                           (e.k == "BinaryOperator" and e.op == "=" and (access_path(e.c[0]) or "").endswith("->error") and strip_casts(e.c[1]).v) for e in blk.el)
+            start = None
+            for b, blk in f.blocks.items():
+                if blk.cond is not None and lp.c[1] is not None and blk.cond.id in {x.id for x in lp.c[1].walk()}:
+                    for i, sx in enumerate(blk.succs):
+                        if sx is not None and f.edge_kind(b, i) is True:
+                            start = sx
+            if start is None:
+                raise AnalysisBroken("%s: body of the instruction loop not found in the CFG" % f.name)
+            BODY = set()
+            st = [start]
+            while st:
+                b = st.pop()
+                if b in BODY or b == incpos[0] or b == f.exit:
+                    continue
+                BODY.add(b)
+                st.extend(sx for sx in f.blocks[b].succs if sx is not None)
+            # A[b]: from the start of block b the increment can be reached without emit/error
+            A = {incpos[0]: True}
+            work = True
+            while work:
+                work = False
+                for b in BODY:
+                    blk = f.blocks[b]
+                    if A.get(b) or settles(blk):
+                        continue
+                    if any(sx is not None and A.get(sx) for sx in blk.succs):
+                        A[b] = True
+                        work = True
+            n += 1
+            rep.saw(f)
+            # R: blocks reachable from the loop condition's true edge before any emit/error and before the "there is no rule" branch
+            def ruleish(cond):
+                vs = variables(cond)
+                return bool(vs) and all(v == "rule" or v.endswith("->rule") or v.endswith("->emit") or v.endswith("rule->emit") for v in vs)
+            R = set()
+            st = [start] if start is not None else []
+            while st:
+                b = st.pop()
+                if b in R or b == incpos[0]:
+                    continue
+                blk = f.blocks[b]
+                R.add(b)
+                if settles(blk):
+                    continue
+                for i, sx in enumerate(blk.succs):
+                    if sx is None:
+                        continue
+                    if blk.cond is not None and ruleish(blk.cond) and f.edge_kind(b, i) is False:
+                        continue            # no rule to call: nothing to dispatch
+                    st.append(sx)
+            bad = []
+            for b, blk in f.blocks.items():
+                if b not in R or blk.cond is None or settles(blk) or ruleish(blk.cond):
+                    continue
+                ss = [s for s in blk.succs if s is not None]
+                if len(ss) < 2 or not (any(A.get(s) for s in ss) and not all(A.get(s) for s in ss)):
+                    continue
+                vs = variables(blk.cond)
+                if not vs or not all(v.endswith("->flags") and "opcode" not in v for v in vs):
+                    bad.append((blk.cond.line, unparse(blk.cond)[:70]))
+            rep.check(not bad, "D8-EVERY-INSN-DISPATCHED", where(f), "loop@%s" % lp.line,
+                      "only insn->flags decides whether an instruction is passed over without calling its rule",
+                      "%s can finish the iteration for an instruction without calling rule->emit and without an error, decided by `%s` (line %s): "
+                      "that is not one of the compiler's per-instruction marks, so a rule an application registered for such an opcode is never run" %
+                      (f.name, bad[0][1] if bad else "", bad[0][0] if bad else ""), line=bad[0][0] if bad else lp.line)
+    if n < 5:
+        raise AnalysisBroken("only %d instruction loops calling rule->emit found" % n)
